@@ -144,8 +144,13 @@ def merge(dumps):
     return m
 
 
+def replay_dir():
+    return os.environ.get('VERIF_REPLAY_DIR') or \
+        os.path.join(env.OUT, 'replay')
+
+
 def write_replay(prop, seed, i, v):
-    d = os.path.join(env.OUT, 'replay')
+    d = replay_dir()
     os.makedirs(d, exist_ok=True)
     path = os.path.join(d, '%s-%s-%d.json' % (prop, seed, i))
     with open(path, 'w') as fh:
@@ -185,7 +190,8 @@ def write_evidence(prop, mod, tier, seed, m, wall, n_unknown, known_hits):
         'wall_s': round(wall, 2),
         'violations': n_unknown,
     }
-    d = os.path.join(env.VERIF_ROOT, 'evidence')
+    d = os.environ.get('VERIF_EVIDENCE_DIR') or \
+        os.path.join(env.VERIF_ROOT, 'evidence')
     os.makedirs(d, exist_ok=True)
     path = os.path.join(d, '%s.json' % prop)
     tmp = path + '.tmp'
@@ -201,7 +207,7 @@ def drive(prop, tier, seed, nshards):
     t0 = time.time()
     env.ensure_deps()
     mod = load_prop(prop)
-    outdir = os.path.join(env.OUT, 'shards')
+    outdir = os.path.join(env.OUT, 'shards', str(os.getpid()))
     os.makedirs(outdir, exist_ok=True)
     nshards = getattr(mod, 'SHARDS', {}).get(tier, nshards)
     timeout = getattr(mod, 'TIMEOUT', {}).get(
@@ -246,9 +252,13 @@ def drive(prop, tier, seed, nshards):
             problems.append('shard %s: rc=%s %s' % (os.path.basename(out),
                                                     rc, tail))
     import glob
-    for old in glob.glob(os.path.join(env.OUT, 'replay',
+    for old in glob.glob(os.path.join(replay_dir(),
                                       '%s-%s-*.json' % (prop, seed))):
         os.unlink(old)
+    try:
+        os.rmdir(outdir)
+    except OSError:
+        pass
     m = merge(dumps)
     for pr in problems:
         m['inconclusive'].append(pr)
